@@ -61,14 +61,15 @@ RULE = ('cases: version-definition / version-requirement sections with 0..14 ent
         'version-symbol tables of 0..300 symbols with arbitrary index/hidden bit, reserved values, strides >= entry size, '
         'over symbol tables of the same or a larger (0..4 more) symbol count; '
         'both classes and byte orders, sections and header table in random file order at unaligned offsets, names 0..130 '
-        'bytes of 1-4 byte UTF-8; a depth-and-size stream (per kind one entry with ~1010 (thorough ~3000) auxiliaries and '
+        'bytes of 1-4 byte UTF-8, string tables with or WITHOUT a leading NUL (a non-empty name at offset 0, name '
+        'fields equal to 0 drawn); a depth-and-size stream (per kind one entry with ~1010 (thorough ~3000) auxiliaries and '
         'one chain of as many single-auxiliary entries, the implementation observed under CPython\'s default '
         'recursion limit of 1000); a combined stream: ONE file holding .gnu.version_d, .gnu.version_r and .gnu.version '
         '(+ symbol table), each linked to its own string table (independent tables, same-layout twins with different '
         'strings at the same offsets, or partly shared), the three sections instantiated from ONE ELFFile object '
         '(get_section / iter_sections / get_section_by_name) in a random order and, on a second ELFFile, in the '
         'reverse order, all instantiated before any is observed, each compared with its own spec; plus a malformed stream (zero counts, counts running into garbage, zero links on '
-        'non-last entries / auxiliaries counted several times, truncated files, '
+        'non-last entries / auxiliaries counted several times, followed displacements of 2**32 - k, truncated files, '
         'wrong link types, zero entry size) compared impl vs model only. distinct = hash(kind, abstract); non-trivial = '
         'at least 2 records walked or a malformed / ended case')
 
@@ -105,8 +106,21 @@ def _name(rng):
 
 def _strtab(rng, count):
     """returns (blob, [(offset, bytes)...]) — names, plus suffixes of names (offset into the middle)"""
-    blob = bytearray(b'\0') if rng.random() < 0.8 else bytearray(_garbage(rng, rng.randint(1, 5)).replace(b'\0', b'\x01') + b'\0')
-    refs = [(len(blob) - 1, b'')]
+    r = rng.random()
+    if r < 0.55:
+        blob = bytearray(b'\0')                  # linker style: offset 0 is the empty string
+        refs = [(0, b'')]
+    elif r < 0.9:
+        # nothing in the format requires the leading NUL: offset 0 holds a NON-EMPTY name (name fields equal to 0
+        # must still be resolved through the table)
+        first = _name(rng)
+        while not first:
+            first = _name(rng)
+        blob = bytearray(first + b'\0')
+        refs = [(0, first), (0, first), (len(first), b'')]
+    else:
+        blob = bytearray(_garbage(rng, rng.randint(1, 5)).replace(b'\0', b'\x01') + b'\0')
+        refs = [(len(blob) - 1, b'')]
     for _ in range(count):
         nm = _name(rng)
         off = len(blob)
@@ -327,7 +341,8 @@ def _malform_chain(rng, case, kind):
     """derive an out-of-domain variant (error behaviour / garbage walk): impl vs model only"""
     case = [c for c in case]
     entries = _copy_entries(case[3])
-    what = rng.choice(['cnt0', 'info+', 'cut', 'linktype', 'info-', 'strtab_unterminated', 'entloop', 'auxloop'])
+    what = rng.choice(['cnt0', 'info+', 'cut', 'linktype', 'info-', 'strtab_unterminated', 'entloop', 'auxloop',
+                       'wrap', 'wrap'])
     if what == 'cnt0' and entries:
         i = rng.randrange(len(entries))
         entries[i][-1] = []
@@ -348,6 +363,20 @@ def _malform_chain(rng, case, kind):
         entries[i][-1] = auxs[:j + 1] + [list(auxs[j]) for _ in range(rng.randint(1, 3))]
         case[3] = entries
         case[8] = ['auxloop', i]
+    elif what == 'wrap' and entries:
+        # a followed displacement of 2**32 - k: offset + displacement lies beyond the file (the image is not well
+        # formed; the reader must not wrap modulo 2**32 to a record k bytes BEFORE the link)
+        i = rng.randrange(len(entries))
+        d = 2 ** 32 - rng.choice([1, 4, 8, 16, 20, rng.randint(1, 52)])
+        where = rng.choice(['aux', 'next', 'auxnext'])
+        if where == 'next' and i + 1 < len(entries):
+            entries[i][5 if kind == 'verdef' else 3] = d
+        elif where == 'auxnext' and len(entries[i][-1]) >= 2:
+            entries[i][-1][rng.randrange(len(entries[i][-1]) - 1)][1 if kind == 'verdef' else 4] = d
+        else:
+            entries[i][4 if kind == 'verdef' else 2] = d
+        case[3] = entries
+        case[8] = ['wrap', i]
     elif what == 'info+':
         case[8] = ['info', rng.randint(1, 3)]
     elif what == 'info-' and entries:
